@@ -81,11 +81,11 @@ def write_replay(prop: str, entries: List[dict]) -> str:
 
 def bite_tests(prop: str) -> dict:
     """Thorough tier: do the contracts still bite?  Every stored property-breaking change of this property
-    (seeded/<prop>/m*/patch.diff) is applied to a scratch copy of /repo's src under .cache (never to /repo) and the quick
+    (seeded/<prop>/m*/patch.diff and the second-round r2m*/patch.diff) is applied to a scratch copy of /repo's src under .cache (never to /repo) and the quick
     check is run on the copy.  Recorded in the evidence; never changes the exit code of the check of the real tree."""
     import glob, shutil, subprocess
     out = {"changes": [], "flagged": 0, "undecided": 0, "missed": 0}
-    for d in sorted(glob.glob(os.path.join(ROOT, "seeded", prop, "m*"))):
+    for d in sorted(glob.glob(os.path.join(ROOT, "seeded", prop, "m*")) + glob.glob(os.path.join(ROOT, "seeded", prop, "r2m*"))):
         patch = os.path.join(d, "patch.diff")
         if not os.path.isfile(patch):
             continue
@@ -313,6 +313,9 @@ def check_property(prop: str, tier: str, seed: int) -> int:
                 hit = next((kf for kf in known if finding_matches(kf, prop, oid, entry["message"], h["name"])), None)
                 if hit:
                     known_hits.append({"finding": hit, "entry": entry})
+                    if h["name"].startswith("finding_"):
+                        obligations -= 1      # a probe harness of a listed finding is not an obligation of the property
+                        backend_rows[-1]["known_finding_probe"] = True
                 else:
                     violations.append(entry)
             else:
